@@ -162,7 +162,7 @@ func runSegment(seed int64, cfg stressCfg) (reset vM, events []vM) {
 				r.mu.Lock()
 				r.started, r.ret, r.err = true, false, nil
 				r.want, r.tmo, r.stales, r.inSel, r.lateSeen = want, tm, 0, false, false
-				r.selT, r.leftT, r.retT = time.Time{}, time.Time{}, time.Time{}
+				r.selT, r.leftT, r.retT, r.staleT = time.Time{}, time.Time{}, time.Time{}, time.Time{}
 				// the call record is written by the first hook of the call (BestMasterchainClient may not
 				// touch the wait list at all)
 				r.pending = vM{"k": "call", "r": r.name, "i": r.idx, "a": want, "b": tm.Milliseconds(), "kind": kind}
